@@ -10,7 +10,7 @@ the final values reproduces exactly what is emitted.
 -/
 namespace Casm
 
-theorem instr_recomputes (st : Static) (nodes : List AstNode) (d0 d : Defs) (f : FrontOK st nodes d0) (g : Good st nodes d0 d)
+theorem instr_recomputes (st : Static) (nodes : List AstNode) (d0 d : Defs) (g : Good st nodes d0 d)
     (pre : List AstNode) (src : List Char) (ref : Nat) (post : List AstNode) (hsplit : nodes = pre ++ .instr src (some ref) :: post)
     (hm : (d.instrs.getD ref default).resolved = true) (ctx : RCtx) (hf : ctx.first = false)
     (hc : ctx.symCtx = ctxAfter st [] (pre ++ [.instr src (some ref)])) :
@@ -19,7 +19,7 @@ theorem instr_recomputes (st : Static) (nodes : List AstNode) (d0 d : Defs) (f :
   have hsc : ctx.symCtx = ctx1.symCtx := by
     rw [hc, w3 pre src post hsplit]; simp [ctxAfter, stepCtx]
   have rel : SRel d0 s1 d ctx1 ctx := ⟨w1, g.rd, hsc, w2⟩
-  have hrec := frozen_instruction_sound st d0 s1 d ctx1 ctx rel f.params 64 _
+  have hrec := frozen_instruction_sound st d0 s1 d ctx1 ctx rel 64 _
     (fun c hc => by obtain ⟨mi, hmi, rfl⟩ := List.mem_map.mp hc; exact w4 mi hmi) w5 encs rp w6 w7
   unfold resolveInstruction
   simp only [unfreeze_instr, Bool.false_eq_true, if_false, (viewEq st (unfreeze_view d) evalFuel).renc, (g.ic ref).1, hrec]
@@ -77,7 +77,7 @@ theorem good_recomputesAll (st : Static) (nodes : List AstNode) (d0 d : Defs) (f
     | some ref =>
       simp only [marked] at hm
       simp only [dispatch]
-      exact instr_recomputes st nodes d0 d f g pre src ref post hsplit hm ctx hf hc
+      exact instr_recomputes st nodes d0 d g pre src ref post hsplit hm ctx hf hc
   | data sz es refs =>
     simp only [marked] at hm
     simp only [dispatch]
